@@ -263,6 +263,19 @@ def call_matrix(case, normalize, clause, irf_override=None):
         perm = perm[::-1]
     elif rep.get("time_order") == "shuffled":
         perm = np.random.default_rng([rep.get("seed", 0), t.size]).permutation(t.size)
+    if g.size >= 3 and float(np.max(g)) > float(np.min(g)):
+        # first a decoy: another global axis of the same length and end points with other interior points - whatever the code
+        # remembers about an axis must identify it
+        gf = np.asarray(case["global_axis"], dtype=float)
+        u_ = (gf - gf[0]) / (gf[-1] - gf[0]) if gf[-1] != gf[0] else None
+        if u_ is not None:
+            decoy = gf[0] + (gf[-1] - gf[0]) * np.abs(u_) ** 1.7 * np.sign(u_)
+            decoy[0], decoy[-1] = gf[0], gf[-1]
+            try:
+                with np.errstate(all="ignore"):
+                    mc.calculate_matrix(dm, decoy, t[perm].copy())
+            except Exception:  # noqa: BLE001
+                pass
     with expect_ok(clause):
         labels, mat = mc.calculate_matrix(dm, g, t[perm].copy())
     mat = np.asarray(mat)
